@@ -88,6 +88,16 @@ def decorate_jobs(jobs, seed, prop):
         r = Rng(seed, prop, 'read-window', i)
         if 'read_window' not in j['plan'] and r.chance(0.35):
             j['plan']['read_window'] = r.choice([1, 3, 16, 100, 512, 4096, 8191])
+    # block layout: an eighth of the sample / API-built initial models are brought into another legal block order first
+    for i, j in enumerate(jobs):
+        init = j['plan'].get('init')
+        r = Rng(seed, prop, 'layout', i)
+        if j['plan'].get('profile') != 'flow' and isinstance(init, dict) and ('sample' in init or 'builder' in init) and 'layout' not in init and 'relabel' not in init and r.chance(0.125):
+            init['layout'] = [r.below(1 << 30) for _ in range(r.range(1, 3))]
+    # F-REUSE: in a fifth of the runs restarts load the saved file back into the NifFile object that wrote it
+    for i, j in enumerate(jobs):
+        if 'reuse_object' not in j['plan'] and Rng(seed, prop, 'reuse-object', i).chance(0.2):
+            j['plan']['reuse_object'] = True
     # plans that once exposed a genuine defect (now repaired) are re-run by every check of their property
     regdir = os.path.join(VERIF, 'regressions', prop)
     if os.path.isdir(regdir):
